@@ -13,6 +13,7 @@ import (
 	"rscheck/driver"
 	"rscheck/grammar"
 	"rscheck/pat"
+	"rscheck/rules/arith"
 )
 
 const (
@@ -28,7 +29,8 @@ var Def = driver.PropDef{
 		"R1 value-type ids agree in all three copies and each encodeType emits the id of its own Go type; " +
 		"R2 wire grammar: the write term of every encodeValue, the read term of every readObject case and of the file-level opcodes of the decoder equal the reference RDB grammar (and therefore each other); EncodeObject/EncodeDump call the parts in file order (select-db, expiry, type, key, value / type, value, footer); the linked encoder's header, footer, select-db and expiry emit the opcodes the reader dispatches on; " +
 		"R3 event wiring: in every decoder case the k-th item read is the k-th payload argument of the event (Hset(key, field, value), Zadd(key, score, member) with the member read first), the adaptor stores each callback parameter in the field of the same meaning and appends in call order, Start* initialises the matching Go type; " +
-		"R5 the BinEntry/ObjEntry converters copy every field other than Value one-to-one.",
+		"R5 the BinEntry/ObjEntry converters copy every field other than Value one-to-one; " +
+		"R6 the two copies of every compact-encoding decoder (ziplist entry/length, zipmap item/length/count, LZF: pkg/rdb/reader.go and the in-repo cupcake decoder) apply the same masks, shifts, widths, sign conversions and case constants (multiset fingerprint, invariant under renaming and reordering), and both RDB length decoders use tag >> 6, value & 0x3f, 14-bit high part << 8.",
 	NotDecided: "float text round-trip ('g',17, NaN, -0), integer-string canonicalisation at numeric boundaries, LZF, ziplist/intset/zipmap integer decoding: all value-level. What is claimed is 'both sides speak the same grammar with the same numbers and wire each element to the right slot'.",
 	Trusted:    []string{"go/parser, go/types (x/tools v0.29.0)", "reference RDB grammar (shared with C01)", "module-cache copy of github.com/cupcake/rdb is the one linked (go.mod)"},
 	Run:        Run,
@@ -334,6 +336,11 @@ func Run(c *core.Ctx) {
 
 	adaptor(c)
 	converters(c)
+
+	// ---- R6 the duplicated value decoders agree (value-level arithmetic by sibling comparison)
+	arith.CheckSiblings(c, "R6.siblings")
+	arith.LengthFingerprint(c, "R6.length", c.Func(cupPkg, "decode", "readLength"))
+	arith.LengthFingerprint(c, "R6.length", c.Func(rdbPkg, "rdbReader", "readEncodedLength"))
 }
 
 func order(c *core.Ctx, fn *core.Fn, name string, calls []string, why string) {
